@@ -115,6 +115,11 @@ bool apply_content_fault(const Fault &f, Bytes &b, const std::map<u32, Bytes> &a
         for (size_t i = 0; i + 1 < f.a.size(); i += 2) { size_t off = size_t(f.a[i]); if (off < b.size()) { b[off] = u8(f.a[i + 1]); any = true; } }
         return any;
     }
+    if (f.kind == "SIZEROT") {      // compressed table header: announced size += a[0] (27 bits), scheme bits kept
+        if (b.size() < 8 || f.a.empty()) return false;
+        u32 hdr = be32(&b[4]); u32 sz = u32(i64(hdr & 0x07FFFFFF) + f.a[0]) & 0x07FFFFFF; set32(b, 4, (hdr & 0xF8000000u) | sz);
+        return true;
+    }
     if (f.kind == "TORN") {
         if (b.empty() || f.a.size() < 2) return false;
         size_t off = size_t(u64(f.a[0]) % b.size()), n = size_t(f.a[1]); if (n > b.size() - off) n = b.size() - off;
